@@ -149,6 +149,30 @@ def main(ctx: Ctx):
                         os.kill(srv.pid, signal.SIGKILL)
                     except Exception:
                         pass
+        # ---- a server started the way the command line starts it (close_on_none=True: an explicit `None` request shuts it
+        #      down): a client that vanishes before its header is complete has not asked for anything
+        hdr_len = 4 + int.from_bytes(streams['worker'][:4], 'big')
+        for off in (0, 2, 4, hdr_len - 1):
+            for how in ('fin', 'rst'):
+                sess.write_conf(None)
+                srv = spawn_server(('127.0.0.1', 0), close_on_none=True)
+                try:
+                    RP.send_cut(srv.addr, streams['worker'], off, how)
+                    time.sleep(0.2)
+                    rt = RP.round_trip(srv.addr) if srv.is_alive() else ('server-dead', repr(getattr(srv, 'error', None)))
+                    ctx.case(('close-on-none', off, how), True, sample={'case': 'server with close_on_none=True, client vanishes inside its header', 'offset': off, 'how': how, 'then': rt} if (off, how) == (0, 'fin') else None)
+                    if rt != (False, 8):
+                        ctx.fail('close-on-none:header', f'a server running with close_on_none=True: a client that sent {off} bytes of its header and vanished ({how}) - a following well-behaved client gets {rt}',
+                                 {'fault': ['cut', 'worker', off, how], 'scenario': 'close-on-none'})
+                finally:
+                    import os
+                    import signal
+                    try:
+                        for p_ in RP.descendants(srv.pid):
+                            os.kill(p_, signal.SIGKILL)
+                        os.kill(srv.pid, signal.SIGKILL)
+                    except Exception:
+                        pass
         rng.shuffle(faults)
         sut = ServerUnderTest(sess)
         pending = []
@@ -201,6 +225,24 @@ def main(ctx: Ctx):
 def replay(case):
     sess = inject.Session()
     streams = RP.recorded_streams()
+    if case.get('scenario') == 'close-on-none':
+        from common import spawn_server
+        import os
+        import signal
+        srv = spawn_server(('127.0.0.1', 0), close_on_none=True)
+        try:
+            g = case['fault']
+            RP.send_cut(srv.addr, streams[g[1]], g[2], g[3])
+            time.sleep(0.2)
+            print('server alive:', srv.is_alive(), '- a well-behaved client afterwards gets', RP.round_trip(srv.addr) if srv.is_alive() else None, '(expected (False, 8))')
+        finally:
+            for p_ in RP.descendants(srv.pid) + [srv.pid]:
+                try:
+                    os.kill(p_, signal.SIGKILL)
+                except Exception:
+                    pass
+            sess.close()
+        return
     sut = ServerUnderTest(sess)
     try:
         for g in case.get('sequence', [case['fault']]):
